@@ -218,7 +218,9 @@ class RegModel:
                 problems.append('order: %r (registry rank %d, positions %r) '
                                 'before %r (rank %d, positions %r)' % (
                                     a[4], a[0], a[1], b[4], b[0], b[1]))
-            elif ka == kb and a[2] == b[2] and a[3] > b[3]:
-                problems.append('subscription order: %r before %r' % (
-                    a[4], b[4]))
+        for i, a in enumerate(matched):
+            for b in matched[i + 1:]:
+                if sortkey(a) == sortkey(b) and a[2] == b[2] and a[3] > b[3]:
+                    problems.append('subscription order: %r before %r' % (
+                        a[4], b[4]))
         return problems
